@@ -38,7 +38,7 @@ func c10PatchImport(form int, path string) string {
 
 // VerifC10Guards: a change applies to a file iff the file is of the package
 // the change names (if any) and imports every path the change lists in the
-// stated form; the code pattern itself always occurs.
+// stated form, and the code pattern occurs in it (the callee's name is symbolic).
 func VerifC10Guards() {
 	withPkg := nd.Choose("patchpkg", 2) == 1
 	form1 := nd.Choose("form1", 6)
@@ -147,6 +147,22 @@ func VerifC10Guards() {
 	symName(name1, "name1")
 	symName(name2, "name2")
 
+	// the code the pattern looks for: its name is symbolic, so the file may not contain an instance at all
+	occurs := true
+	ast.Inspect(file, func(n ast.Node) bool {
+		if c, ok := n.(*ast.CallExpr); ok {
+			if id, ok := c.Fun.(*ast.Ident); ok && id.Name == "foo" {
+				s := nd.Str("callee", 3)
+				for i := 0; i < len(s); i++ {
+					nd.Assume(nd.And(s[i] >= 'a', s[i] <= 'z'))
+				}
+				id.Name = s
+				occurs = nd.StrEq(s, "foo")
+			}
+		}
+		return true
+	})
+
 	_, got := prog.Changes[0].Match(file)
 
 	// the property's table
@@ -180,6 +196,7 @@ func VerifC10Guards() {
 	if withPkg {
 		want = nd.And(want, nd.StrEq(pn, "pkg"))
 	}
+	want = nd.And(want, occurs) // guards never make a file match in which the pattern does not occur (C06)
 	nd.Assert(nd.Iff(got, want), fmt.Sprintf("guards: patch(pkg=%v, imports=%d/%d) file(imports=%d/%d, grouped=%v): the change applies iff package and every listed import match in the stated form", withPkg, form1, form2, fileHas1, fileHas2, grouped))
 	nd.Reach("done")
 }
